@@ -35,6 +35,10 @@ func (c18) Run(c *mon.Ctx, i int) {
 		// compress case
 		s := accelSettings[r.Intn(len(accelSettings))]
 		d := gen.RandomData(r, 250000)
+		if r.Chance(1, 3) {
+			// long tokens exercise the lane budgets of the SIMD token packers
+			d = gen.Make(r, []string{"farcopy3", "farcopy2", "farcopy", "sparsematch", "farcopy3"}[r.Intn(5)], r.Range(40000, 200000))
+		}
 		ops := gen.Schedule(r, len(d.B), gen.FlushPositions(r, len(d.B)), gen.PartitionStyles[r.Intn(4)])
 		out, err := emit(c.API, s, d.B, ops)
 		c.Eval(1)
